@@ -861,6 +861,15 @@ def _auto(ctx, prop, lib):
         frontier = set(anchored)
         for depth in range(2 if wide else 1):
             nxt = {f for f, cs in g.items() if cs & frontier and f not in anchored and f not in up}
+            # a caller without a reference model (a wrapper somebody put in between: `self._parse_region(r)` for
+            # `parse_region(r, self._chromsizes)`) is transparent: its own callers are the plumbing
+            through = {f for f in nxt if f not in lib}
+            for _ in range(3):
+                more = {f for f, cs in g.items() if cs & through and f not in anchored and f not in up and f not in nxt}
+                if not more:
+                    break
+                nxt |= more
+                through = {f for f in more if f not in lib}
             up |= nxt
             frontier = nxt
         classes = {cq for cq, (node, m) in ctx.repo.classes.items() if os.path.relpath(m.path, ctx.repo.root) in files}
